@@ -1161,7 +1161,7 @@ def run(ctx: Context, R: Reporter):
 
 
 def variants():
-    from ..variants import Variant, alpha_rename, delete_stmt, edit, insert_after, insert_before, invert_if, replace_expr, replace_stmt
+    from ..variants import Variant, chain, alpha_rename, delete_stmt, edit, insert_after, insert_before, invert_if, replace_expr, replace_stmt
 
     core = "tempest/core.py"
     sm = "tempest/state_manager.py"
@@ -1183,6 +1183,8 @@ def variants():
         Variant("c-write-bytes", "bad", edit(core, "SamplerCore.save_sampler_state", _to_write_bytes), ["C08.c"], quick=True),
         Variant("g-pickle-shallow-copy", "bad", replace_stmt(core, "SamplerCore.save_sampler_state", "d['sampler'] = dill.dumps(self)", "import copy\nclone = copy.copy(self)\nd['sampler'] = dill.dumps(clone)"), ["C08.g"]),
         Variant("h-cached-pool", "bad", replace_stmt(core, "SamplerCore._get_distribute_func", "pool = Pool(self.config.pool)", "pool = Pool(self.config.pool)\nself._pool = pool"), ["C08.h"]),
+        Variant("i-history-cast-in-writer", "bad", insert_before(core, "SamplerCore.save_sampler_state", "d['random_state'] = self.config.random_state", "d['_history']['u'] = [a.astype(np.float32) for a in d['_history']['u']]"), ["C08.i"], quick=True),
+        Variant("d-result-attr-not-saved", "bad", chain(replace_stmt(core, "SamplerCore.run_sampling", "self.state.set_current('logz', logz)", "self.state.set_current('logz', logz)\nself.logz_final = logz"), replace_stmt(core, "SamplerCore.compute_evidence", "logz = self.state.get_current('logz')", "logz = getattr(self, 'logz_final', None) or self.state.get_current('logz')")), ["C08.d"]),
         Variant("d-export-wrong-attr", "bad", replace_expr(sm, "StateManager.to_dict", "self._history.items()", "self._current.items()"), ["C08.d"]),
         Variant("d-import-skips-history", "bad", edit(sm, "StateManager.update_from_dict", _drop_history_import), ["C08.d", "C08.a"], quick=True),
         Variant("e-reset-iter-after-load", "bad", insert_after(core, "SamplerCore.run_sampling", "self._initialize_from_resume(resume_state_path)", "self.state.set_current('calls', 0)"), ["C08.e"], quick=True),
